@@ -221,7 +221,9 @@ pub fn gen_desc(rng: &mut Rng) -> Desc {
             let xmp = if rng.chance(1, 3) { Some(meta(rng)) } else { None };
             let flags = F_ANIM | (if alpha { F_ALPHA } else { 0 }) | (if icc.is_some() { F_ICC } else { 0 }) | (if exif.is_some() { F_EXIF } else { 0 }) | (if xmp.is_some() { F_XMP } else { 0 });
             let loops = *rng.pick(&[0u16, 1, 2, 65535, rng.0 as u16]);
-            let n = rng.range(1, 6) as usize;
+            // now and then a long animation of maximum-length frames: the durations sum past 2^32
+            let long = rng.chance(1, 40);
+            let n = if long { *rng.pick(&[257usize, 300, 520]) } else { rng.range(1, 6) as usize };
             let mut body = vp8x(flags, cw, ch);
             if let Some(b) = &icc {
                 body.extend(chunk(b"ICCP", b));
@@ -236,7 +238,7 @@ pub fn gen_desc(rng: &mut Rng) -> Desc {
                 let fw = rng.range(1, cw.min(64) as u64) as u32;
                 let fh = rng.range(1, ch.min(64) as u64) as u32;
                 let rd = rng.below(1 << 24) as u32;
-                let d = *rng.pick(&[0u32, 1, 100, 0xff_ffff, rd]);
+                let d = if long && !rng.chance(1, 50) { 0xff_ffff } else { *rng.pick(&[0u32, 1, 100, 0xff_ffff, rd]) };
                 duration += u64::from(d);
                 let mut data = Vec::new();
                 data.extend_from_slice(&u24(0));
@@ -343,7 +345,7 @@ pub fn run(o: &Opts) -> Report {
         }
         return rep;
     }
-    rep.rule = "generated well-formed layouts: simple lossy (14-bit sizes 1..16383 with scale bits), simple lossless (1..16384, alpha bit), extended stills (all flag combinations, 24-bit canvas incl. 2^24, metadata present/absent/empty/odd/1000 bytes at spec and non-spec positions, unknown chunks anywhere, ALPH present/absent), animations (1..6 frames, durations incl. 0 and 2^24-1, loop counts incl. 0 and 65535, unknown chunks between and inside frames) x memory limits {unlimited, 0, size-1, size, 255}; accessors vs layout-defined values, vs the Lean model, vs libwebp WebPDemux. distinct_nontrivial = distinct (file, limit) cases other than simple lossy".into();
+    rep.rule = "generated well-formed layouts: simple lossy (14-bit sizes 1..16383 with scale bits), simple lossless (1..16384, alpha bit), extended stills (all flag combinations, 24-bit canvas incl. 2^24, metadata present/absent/empty/odd/1000 bytes at spec and non-spec positions, unknown chunks anywhere, ALPH present/absent), animations (1..6 frames, now and then 257..520 frames of maximum duration - sums beyond 2^32 -, durations incl. 0 and 2^24-1, loop counts incl. 0 and 65535, unknown chunks between and inside frames) x memory limits {unlimited, 0, size-1, size, 255}; accessors vs layout-defined values, vs the Lean model, vs libwebp WebPDemux. distinct_nontrivial = distinct (file, limit) cases other than simple lossy".into();
     let mut rng = Rng::new(o.seed ^ 0xC08);
     let n = if o.thorough() { 40000 } else { 4000 };
     for i in 0..n {
